@@ -10,6 +10,7 @@ element values afterwards.
 import itertools
 
 from harness import Query, enc_bool
+import peek
 
 NAME = "sw"
 
@@ -35,7 +36,9 @@ def make_driver(rule, init, router):
         name = "D"
         g = properties.Group("G", vectors=dict(sw=properties.SwitchVector("SW", rule=rule, elements=elements)))
 
-    return Dev(router=router)
+    d = Dev(router=router)
+    d.peek_element_definitions = [elements["e%d" % i] for i in range(len(init))]     # handlers are attached to the definitions
+    return d
 
 
 def run_impl(case, outcome):
@@ -67,11 +70,11 @@ def run_impl(case, outcome):
         from indi.device import events
 
         def observer(ev):
-            seen.append([el._value == "On" for el in els])
+            seen.append([peek.raw_value(el) == "On" for el in els])
 
-        for el in els:
-            el._definition.attach_event_handler(events.Write, observer)
-            el._definition.attach_event_handler(events.Change, observer)
+        for eldef in d.peek_element_definitions:
+            eldef.attach_event_handler(events.Write, observer)
+            eldef.attach_event_handler(events.Change, observer)
     # switches hidden at element level (`element.enabled = False`): not published, but part of the property and of its rule
     for i in case.get("hidden") or []:
         els[i].enabled = False
@@ -83,7 +86,7 @@ def run_impl(case, outcome):
             ev.prevent_default = True
 
         for i in case["veto"]:
-            els[i]._definition.attach_event_handler(_ev.Write, refuse)
+            d.peek_element_definitions[i].attach_event_handler(_ev.Write, refuse)
 
     qs = []
     steps = []
